@@ -11,3 +11,24 @@ META = {
 
 def run(ctx):
     run_check(ctx, 'C14', ["events", "ack", "chain", "guard-ik", "guard-ref", "guard-revert", "floor"], lambda scn, run: any(q.get("dry") for q in scn["requests"]) and any(not q.get("dry") for q in scn["requests"]), 'a preview and at least one real write')
+    # API layer: how the preview flag reaches the engine (anchors api/v2/query.go, api/v1/utils.go)
+    r = pipeline(ctx, "dryparam", 0)
+    if r is None:
+        return
+    inputs, impl, model = r
+    n = 0
+    for inp in inputs:
+        out, want = impl.get(inp["id"], {}), model.get(inp["id"], {}).get("dry")
+        if out.get("skip"):
+            continue
+        n += 1
+        if "panic" in out or not out.get("writes"):
+            ctx.l2_broken.append({"stream": "dryparam:no-write-reached", "input": inp, "impl": out})
+            continue
+        for w in out["writes"]:
+            if w["dry"] != want:
+                (ctx.violation({"property": "C14", "class": "preview-flag-ignored", "api": inp["api"]},
+                               "%s %s with preview flag %r reached the engine as a REAL write" % (inp["api"], inp["kind"], inp["flag"]),
+                               {"area": "dryparam", "input": inp, "observed": out})
+                 if want else ctx.l2_broken.append({"stream": "dryparam:flag", "input": inp, "impl": out, "model": want}))
+    ctx.cov["preview_flag_requests"] = n
